@@ -3,7 +3,7 @@ import ast
 
 from .. import ordtype as O
 from ..loader import AnalysisError, attach_parents, norm_stmt
-from ..small import FoldError, arms, divides_by, find_ifs, fold, ifexp_arms
+from ..small import FoldError, arms, divides_by, find_ifs, fold, ifexp_arms, expr_cases, sym_eval
 
 EST = "variogram/estimator.pyx"
 VAR = "variogram/variogram.py"
@@ -101,8 +101,13 @@ def preprocessing(ctx, rule="R09.2"):
     ctx.check(ok, rule, site, "remaining masked values are filled with NaN", "mask-nan")
     ndt = [norm_stmt(x) for x in body[i_nodata].body]
     ctx.check(ndt == ["field[np.isclose(field, float(no_data))] = np.nan"], rule, site, "no-data values are replaced by NaN (only if a no-data value is given)", "nodata-nan")
-    selx = [ast.unparse(n.value) for n in ast.walk(body[i_mask]) if isinstance(n, ast.Assign) and ast.unparse(n.targets[0]) == "select" and not (isinstance(n.value, ast.Constant) and n.value.value is None)]
-    ok = sorted(selx) == sorted(["np.invert(np.logical_or(np.reshape(mask, pnt_cnt), np.all(field.mask, axis=0)))", "np.invert(np.all(field.mask, axis=0))"])
+    use = [x for x in body[i_mask].body if isinstance(x, ast.Assign) and ast.unparse(x.targets[0]) == "pos" and "select" in ast.unparse(x.value)]
+    if not use:
+        raise AnalysisError("anchor vanished: pos = pos[:, select] in the mask stage of vario_estimate")
+    sel_val = sym_eval(body[i_mask].body, stop=use[0]).get("select")
+    cases = sorted(expr_cases(sel_val), key=lambda c: c[1]) if sel_val is not None else []
+    ok = cases == sorted([(frozenset(["np.size(mask) > 1"]), "np.invert(np.logical_or(np.reshape(mask, pnt_cnt), np.all(field.mask, axis=0)))"),
+                          (frozenset(["not np.size(mask) > 1"]), "np.invert(np.all(field.mask, axis=0))")], key=lambda c: c[1])
     ctx.check(ok, rule, site, "points are dropped only where the given mask holds or ALL fields are masked (minimal common mask)", "common-mask")
     # ---- copy of the field precedes every in-place operation
     f0 = idx_of(lambda s: isinstance(s, ast.Assign) and ast.unparse(s.targets[0]) == "field")
@@ -454,6 +459,11 @@ def grid_layout(ctx, rule="R09.5"):
 
 
 def run(ctx):
+    from .C08 import mask_guard, nan_guard
+
+    nan_guard(ctx, rule="R09.12")  # missing values behave like removed points only if a pair needs BOTH values present (shared with C08)
+
+    mask_guard(ctx, rule="R09.12")  # masked cells behave like removed points only if a pair needs BOTH cells unmasked (shared with C08)
     from .C13 import forcing_sites, radius_sites
 
     radius_sites(ctx, rule="R09.11")  # automatic lat-lon bins: every sphere conversion receives the caller's geo_scale (shared with C13)
